@@ -340,6 +340,10 @@ func main() {
 			res.Samples = append(res.Samples, gc.Stream+": "+truncate(c.Script, 200))
 		}
 	}
+	// the byte-code verifier (Lean, proved sound) on the code the implementation really holds
+	for _, v := range runWfQueries(*driver, cases, implKV, modelOut) {
+		res.Violations = append(res.Violations, v)
+	}
 	// direct oracles: relations between IMPL lines
 	for _, v := range RunOracles(*prop, cases, implKV) {
 		if id := kf.match(*prop, v); id != "" {
@@ -419,4 +423,91 @@ func implOnlyKey(k string) bool {
 		}
 	}
 	return false
+}
+
+// runWfQueries sends, for every accepted case whose code was dumped, the implementation's constants
+// kinds and bodies (before and after optimisation) to the Lean verifier.
+func runWfQueries(driver string, cases []GenCase, implKV map[string]map[string]string, modelOut map[string]string) []OracleViolation {
+	var lines []string
+	byID := map[string]*GenCase{}
+	bodies := func(fns string) string {
+		var sb strings.Builder
+		if fns == "" {
+			return ""
+		}
+		for _, f := range strings.Split(fns, ";") {
+			parts := strings.Split(f, ":")
+			if len(parts) == 3 {
+				sb.WriteString(" (fn #" + parts[2] + ")")
+			}
+		}
+		return sb.String()
+	}
+	var out []OracleViolation
+	for i := range cases {
+		gc := &cases[i]
+		ikv := implKV[gc.Case.ID]
+		if ikv == nil || ikv["prep"] != "ok" {
+			continue
+		}
+		if ml, ok := modelOut[gc.Case.ID]; ok {
+			_, mkv := parseLine(ml)
+			for _, k := range []string{"wfraw", "wfopt"} {
+				if v, ok := mkv[k]; ok && v != "ok" {
+					out = append(out, OracleViolation{ID: gc.Case.ID, Stream: gc.Stream, Oracle: "ill-formed-code", Detail: "model-compiled program: " + k + "=" + v,
+						Case: gc.Case.Sexp(), Script: gc.Case.Script})
+				}
+			}
+		}
+		main, ok := ikv["main"]
+		if !ok {
+			continue
+		}
+		byID[gc.Case.ID] = gc
+		var cs strings.Builder
+		if ikv["consts"] != "" {
+			for _, c := range strings.Split(ikv["consts"], ",") {
+				if strings.HasPrefix(c, "STRING:") {
+					cs.WriteString(" 1")
+				} else {
+					cs.WriteString(" 0")
+				}
+			}
+		}
+		lines = append(lines, fmt.Sprintf("(wf %s|opt (consts%s) (main #%s)%s)", gc.Case.ID, cs.String(), main, bodies(ikv["fns"])))
+		if raw, ok := ikv["raw"]; ok && raw != "PREPFAIL" {
+			lines = append(lines, fmt.Sprintf("(wf %s|raw (consts%s) (main #%s)%s)", gc.Case.ID, cs.String(), raw, bodies(ikv["rawfns"])))
+		}
+	}
+	if len(lines) == 0 {
+		return out
+	}
+	cmd := exec.Command(driver)
+	cmd.Stdin = strings.NewReader(strings.Join(lines, "\n") + "\n")
+	cmd.Stderr = os.Stderr
+	b, err := cmd.Output()
+	if err != nil {
+		panic(err)
+	}
+	seen := 0
+	for _, l := range strings.Split(string(b), "\n") {
+		id, kv := parseLine(l)
+		if id == "" {
+			continue
+		}
+		seen++
+		if kv["wfimpl"] != "ok" {
+			parts := strings.SplitN(id, "|", 2)
+			gc := byID[parts[0]]
+			if gc == nil {
+				continue
+			}
+			out = append(out, OracleViolation{ID: gc.Case.ID, Stream: gc.Stream, Oracle: "ill-formed-code",
+				Detail: "the program held by the prepared evaluator (" + parts[1] + ") fails the verifier: " + kv["wfimpl"], Case: gc.Case.Sexp(), Script: gc.Case.Script})
+		}
+	}
+	if seen != len(lines) {
+		panic(fmt.Sprintf("wf queries: %d sent, %d answered", len(lines), seen))
+	}
+	return out
 }
